@@ -591,8 +591,9 @@ class History:
         from hv.worlds import _site
 
         sites = self.spec["sites"]
-        og = h3.geo_to_h3(*_site(self.spec, o_sel % len(sites)), 15)
-        dg = h3.geo_to_h3(*_site(self.spec, d_sel % len(sites)), 15)
+        res = int(self.sim.sim_h3_location_resolution)
+        og = h3.geo_to_h3(*_site(self.spec, o_sel % len(sites)), res)
+        dg = h3.geo_to_h3(*_site(self.spec, d_sel % len(sites)), res)
         fl = self.spec.get("fleet_ids") or []
         self._injected = getattr(self, "_injected", 0) + 1
         r = Request.build(f"x{self._injected}", og, dg, self.sim.road_network, self.sim.sim_time, 1, False, fleet_id=fl[o_sel % len(fl)] if fl else None, value=5.0)
@@ -706,7 +707,7 @@ class History:
             return
         e = pool[ids[esel % len(ids)]]
         sites = self.spec["sites"]
-        g = h3.geo_to_h3(*_site(self.spec, site_sel % len(sites)), 15)
+        g = h3.geo_to_h3(*_site(self.spec, site_sel % len(sites)), int(self.sim.sim_h3_location_resolution))
         moved = dataclasses.replace(e, position=sim.road_network.position_from_geoid(g))
         if moved.geoid == e.geoid:
             return
